@@ -236,9 +236,23 @@ def explore(spec_key, factory_module, factory_name, max_states=None,
     return res
 
 
-def replay_trace(spec, init_name, trace):
+def replay_trace(spec, init_name, trace, strict=False):
     """Re-execute a trace without the explorer; returns the list of
-    (label, outcome, violations, note) per step and the final state."""
+    (label, outcome, violations, note) per step and the final state.  With
+    ``strict`` every label must be enabled (in spec.actions) when it is taken."""
+    if strict:
+        state = None
+        for nm, st0 in spec.initial():
+            if nm == init_name:
+                state = st0
+        if state is None:
+            raise InternalError("unknown initial state %r" % init_name)
+        steps = []
+        for lab in trace:
+            if lab not in spec.actions(state):
+                raise InternalError("label %r not enabled" % lab)
+            steps.append(spec.apply(state, lab))
+        return [(lab, st.outcome, st.violations, st.note) for lab, st in zip(trace, steps)], state
     state, steps = rebuild(spec, init_name, trace)
     out = []
     for lab, st in zip(trace, steps):
